@@ -70,6 +70,25 @@ def check(ctx):
                         conds = [repr(c) for e in ev if e["kind"] == "raise" for c, pol in e["pc"][-1:]]
                         okc = any(tq.cmp_parts(c_) is not None and tq.has_sym(c_, "atol") and tq.has_sym(c_, "rtol") or (tq.has_sym(c_, "atol") and tq.has_sym(c_, "rtol") and tq.has_op(c_, "lt", "gt", "le", "ge")) for e in ev if e["kind"] == "raise" for c_, pol in e["pc"][-1:])
                         ctx.ob("R-ZEROVAR", f"variance compared with atol + |mean| rtol and rejected before the square root [{cfg}]", ok and okc, f"raise at {guards}, scale_ set at {sets}, guard {conds[:1]}", site, cfg)
+                        # the guard itself, against the reference condition
+                        gconds = [c_ for e in ev if e["kind"] == "raise" and e.get("short", "").endswith("StandardFlexibleScaler.fit") for c_, pol in e["pc"][-1:] if pol]
+                        sc_t = ctx.attr(st, o, "scale_").term
+                        var_t = None
+                        for x in tq.walk_all(sc_t):
+                            if x.op in ("average", "mean") and any(isinstance(a_, tuple) and a_[0] == "axis" for a_ in x.args[1:]) and tq.has_op(x.args[0], "pow", "mul"):
+                                var_t = x
+                                break
+                        if ctx.ob("R-ZEROVAR", f"guard condition and variance located [{cfg}]", bool(gconds) and var_t is not None, f"{len(gconds)} guard(s)", site, cfg):
+                            from ..terms import V as _V
+
+                            I3, s3 = ctx.interp(), State()
+                            mean_t = [x for x in tq.walk_all(var_t) if x.op in ("average", "mean") and x is not var_t]
+                            h = st.heap[o.obj.id]
+                            varv = _V("arr", var_t, shape=(__import__("sa.terms", fromlist=["Dim"]).Dim.of("M"),), orig=frozenset([("fresh",)]), loc=0)
+                            meanv = _V("arr", mean_t[0], shape=(__import__("sa.terms", fromlist=["Dim"]).Dim.of("M"),), orig=frozenset([("fresh",)]), loc=0) if mean_t else None
+                            if meanv is not None:
+                                refc = ctx.call_func(I3, s3, "ref.preprocessing_ref.zero_variance_columnwise" if cw else "ref.preprocessing_ref.zero_variance_total", varv, meanv, h["atol"], h["rtol"])
+                                ctx.ob("R-ZEROVAR", f"the zero-variance guard is `variance < atol + |mean| rtol` [{cfg}]", any(N.nf(g) == N.nf(refc.term) for g in gconds), f"guard {[repr(g)[:160] for g in gconds[:1]]} vs reference {repr(refc.term)[:160]}", site, cfg)
                     # transform / inverse on the fitted state
                     Xt = arr("Xt", "V", "M")
                     lo = len(I.events)
